@@ -99,8 +99,14 @@ impl Slicing {
             .map(Variable::into_int)
             .transpose()
             .unwrap()
-            .map(|i| i as isize);
+            .map(Self::to_bound);
         Ok(start)
+    }
+
+    /// `slyce` negates negative bounds, which overflows for `isize::MIN`;
+    /// every bound below `-isize::MAX` selects the same elements as `-isize::MAX`
+    fn to_bound(index: i64) -> isize {
+        (index as isize).max(-isize::MAX)
     }
 }
 
